@@ -11,6 +11,12 @@
 //   rsc <N> <freqs>                RAnsSymbolEncoder<N>::Create alone -> c=1 <table hex> | c=0
 //   rsd <N> <ver> <n> <pre> <hex>  RAnsSymbolDecoder<N>: Create, StartDecoding, n * DecodeSymbol
 //                                  (<pre> = 4 bytes lying in memory in front of the buffer; must not matter) -> ok <syms> <remaining> | fail
+//   rwa <N> <E> <freqs> <syms>     RAnsSymbolEncoder<N> on a frequency table that bounds the occurrences of every symbol:
+//                                  E = num_expected_bits_ after Create (read through `#define private public`), then
+//                                  StartEncoding / EncodeSymbol (reverse) / EndEncoding
+//                                  -> w=<bytes_written> used=<bytes_written + size_len> res=<bytes StartEncoding reserved> e=ok
+//                                  (the model recomputes w, used, rans_reserved E and checks E against its own enclosure of
+//                                  the cross entropy: e=ok | e=E-outside-[lo,hi])
 // '!' lines: the property fails on the implementation itself (real round trip with a sentinel behind the block,
 // Create() returning false on a table the callers would use blindly).
 #include <algorithm>
@@ -20,7 +26,16 @@
 #include "draco/compression/config/compression_shared.h"
 #include "draco/compression/entropy/rans_symbol_coding.h"
 #include "draco/compression/entropy/rans_symbol_decoder.h"
+#include "draco/core/encoder_buffer.h"
+#include "draco/core/varint_encoding.h"
+#include <cmath>
+#include <cstring>
+// num_expected_bits_ of RAnsSymbolEncoder is private and has no accessor; the harness needs it to tie the theorem about
+// the write area.  Every standard header and every other draco header used by rans_symbol_encoder.h (ans.h included)
+// is already included above, so only the class template RAnsSymbolEncoder is affected.
+#define private public
 #include "draco/compression/entropy/rans_symbol_encoder.h"
+#undef private
 #include "draco/compression/entropy/symbol_decoding.h"
 #include "draco/compression/entropy/symbol_encoding.h"
 #include "draco/core/decoder_buffer.h"
@@ -92,6 +107,53 @@ static bool create_ok(int N, const std::vector<uint64_t> &f) {
   return false;
 }
 
+// ---------------------------------------------------------------- the rANS write area (StartEncoding reserves, nobody checks)
+// Runs RAnsSymbolEncoder<N> directly on (freqs, syms) -- every symbol occurs at most freqs[symbol] times -- inside a
+// vector whose CAPACITY is far larger than anything the coder can write, so that a write past the reserved SIZE stays
+// inside the allocation and can be reported instead of corrupting the heap.  Returns false when Create fails.
+enum { COV_AREA = 9, COV_AREA_MODEL = 10, COV_AREA_MAXPCT = 11 };
+template <int N>
+static bool area_case_N(Out &o, const std::vector<uint64_t> &freqs, const std::vector<uint32_t> &syms, bool emit, const std::string &ctx) {
+  RAnsSymbolEncoder<N> e; EncoderBuffer eb;
+  eb.buffer()->reserve(syms.size() * 4 + freqs.size() * 4 + (1 << 16));
+  if (!e.Create(freqs.data(), (int)freqs.size(), &eb)) return false;
+  const uint64_t E = e.num_expected_bits_;
+  const size_t off0 = eb.size();
+  e.StartEncoding(&eb);
+  const size_t reserved = eb.size() - off0;
+  for (int i = (int)syms.size() - 1; i >= 0; --i) e.EncodeSymbol(syms[i]);
+  e.EndEncoding(&eb);
+  const size_t used = eb.size() - off0;
+  // bytes_written is the varint in front of the block
+  uint64_t w = 0; int sh = 0; size_t p = off0; const uint8_t *d = (const uint8_t *)eb.data();
+  while (p < eb.size()) { uint8_t c = d[p++]; w |= (uint64_t)(c & 0x7f) << sh; sh += 7; if (!(c & 0x80)) break; }
+  g_cov[COV_AREA]++;
+  if (reserved > 0) g_cov[COV_AREA_MAXPCT] = std::max<long>(g_cov[COV_AREA_MAXPCT], (long)(used * 100 / reserved));
+  std::string lhs = "rwa " + S(N) + " " + U(E) + " " + csv(freqs) + " " + csv(syms);
+  if (used > reserved)
+    o.fail("rANS write area overflow (" + ctx + "): StartEncoding reserved " + U(reserved) + " bytes (num_expected_bits_=" + U(E) + "), " +
+           U(w) + " bytes written, " + U(used) + " bytes touched: " + lhs);
+  if (emit) { o.c(lhs, "w=" + U(w) + " used=" + U(used) + " res=" + U(reserved) + " e=ok"); g_cov[COV_AREA_MODEL]++; }
+  return true;
+}
+static bool area_case(Out &o, int N, const std::vector<uint64_t> &f, const std::vector<uint32_t> &s, bool emit, const std::string &ctx) {
+  switch (N) {
+#define C(k) case k: return area_case_N<k>(o, f, s, emit, ctx);
+    C(1) C(2) C(3) C(4) C(5) C(6) C(7) C(8) C(9) C(10) C(11) C(12) C(13) C(14) C(15) C(16) C(17) C(18)
+#undef C
+  }
+  return false;
+}
+static size_t count_used(const std::vector<uint64_t> &f) { size_t u = 0; for (auto x : f) u += x > 0; return u; }
+// the bit length EncodeRawSymbols derives from the number of unique symbols and the level (used only to pick the
+// encoder instance for the area check that runs BEFORE EncodeSymbols; a different choice of the library is harmless)
+static int raw_bits_for(size_t num_unique, int lvl) {
+  int b = 1; while ((num_unique >> b) != 0) b++;
+  if (lvl < 0) lvl = 7;
+  if (lvl < 4) b -= 2; else if (lvl < 6) b -= 1; else if (lvl > 9) b += 2; else if (lvl > 7) b += 1;
+  return std::min(std::max(1, b), 18);
+}
+
 // ---------------------------------------------------------------- DecodeSymbols case
 static std::string dec_case(Out &o, uint16_t ver, uint32_t n, int nc, const std::vector<uint8_t> &bytes, bool emit = true) {
   // four spare bytes in front of the buffer (read_init used to read in front of short blocks; fixed in f82c4f5)
@@ -160,10 +222,27 @@ static void malformed_from(Out &o, Rng &r, const std::vector<uint8_t> &good, uin
 }
 
 // ---------------------------------------------------------------- EncodeSymbols case
-static void enc_case(Out &o, Rng &r, const std::vector<uint32_t> &syms, int nc, int forced, int lvl, int n_malformed) {
+static void enc_case(Out &o, Rng &r, const std::vector<uint32_t> &syms, int nc, int forced, int lvl, int n_malformed, bool area_model = false) {
   Options opt;
   if (forced >= 0) SetSymbolEncodingMethod(&opt, (SymbolCodingMethod)forced);
   if (lvl >= 0) opt.SetInt("symbol_encoding_compression_level", lvl);
+  // the write area of both rANS streams EncodeSymbols may produce, checked on a safe buffer BEFORE the library writes
+  // into its own (a write past the reserved area is a heap overflow there)
+  if (!syms.empty() && (forced == 0 || forced == 1 || forced == -1)) {
+    uint32_t mx = *std::max_element(syms.begin(), syms.end());
+    int c = std::max(nc, 1);
+    bool want_model = area_model;
+    if ((mx >> 31) == 0 && forced != 1) {   // tags: RAnsSymbolEncoder<5> on the bit lengths
+      std::vector<uint64_t> f(32, 0); std::vector<uint32_t> tags;
+      for (size_t i = 0; i + c <= syms.size(); i += c) { uint32_t m = 0; for (int j = 0; j < c; j++) m = std::max(m, syms[i + j]); int bl = 1; while (bl < 32 && (m >> bl)) bl++; f[bl & 31]++; tags.push_back(bl & 31); }
+      area_case(o, 5, f, tags, want_model, "tags of the tagged scheme");
+    }
+    if ((mx >> 18) == 0 && forced != 0) {   // raw: RAnsSymbolEncoder<bit length> on the values
+      std::vector<uint64_t> f((size_t)mx + 1, 0); for (auto s : syms) f[s]++;
+      size_t nu = count_used(f);
+      if (nu < (1u << 18)) area_case(o, raw_bits_for(nu, lvl), f, syms, want_model && nu <= 600, "raw scheme");
+    }
+  }
   EncoderBuffer eb;
   bool ok = EncodeSymbols(syms.data(), (int)syms.size(), nc, &opt, &eb);
   std::vector<uint8_t> bytes((const uint8_t *)eb.data(), (const uint8_t *)eb.data() + eb.size());
@@ -251,6 +330,8 @@ static void rse_case_N(Out &o, Rng &r, const std::vector<uint64_t> &freqs, const
   e.EndEncoding(&eb);
   std::vector<uint8_t> bytes((const uint8_t *)eb.data(), (const uint8_t *)eb.data() + eb.size());
   o.c(lhs, "c=1 " + hex(bytes.data(), bytes.size()));
+  // every symbol is encoded at most as often as its frequency says (see the callers): the reserved area must suffice
+  area_case_N<N>(o, freqs, syms, count_used(freqs) <= 600, "RAnsSymbolEncoder<" + S(N) + "> directly");
   std::vector<uint8_t> with = bytes; with.insert(with.end(), kSentinel, kSentinel + 3);
   uint8_t pre[4]; for (auto &p : pre) p = (uint8_t)r.next();
   {  // real round trip
@@ -366,7 +447,7 @@ int main(int argc, char **argv) {
     std::vector<uint32_t> s = gen_syms(r, kind, n, maxv);
     int forced = (int)r.range(-1, 1);
     int lvl = r.chance(15) ? -1 : (int)r.range(0, 10);
-    enc_case(o, r, s, nc, forced, lvl, i % 3 == 0 ? 3 : 0);
+    enc_case(o, r, s, nc, forced, lvl, i % 3 == 0 ? 3 : 0, i % 4 == 1);
   }
   // 2. a few large arrays (lengths up to 1e5) and large alphabets
   int n_large = thorough ? 60 : 7;
@@ -378,14 +459,14 @@ int main(int argc, char **argv) {
     uint32_t maxv = boundary_max(r, maxbits);
     if (kind == 4 && maxv < (uint32_t)n) maxv = n;
     std::vector<uint32_t> s = gen_syms(r, kind, n, maxv);
-    enc_case(o, r, s, nc, (int)r.range(-1, 1), r.chance(30) ? -1 : (int)r.range(0, 10), 2);
+    enc_case(o, r, s, nc, (int)r.range(-1, 1), r.chance(30) ? -1 : (int)r.range(0, 10), 2, true);
   }
   // 2b. dominated arrays long enough that a write area sized from the ideal entropy (instead of the entropy under the
   //     quantised table) would be too small: n >= ~70000 at 12-bit precision
   for (int i = 0; i < (thorough ? 12 : 3); i++) {
     int n = (int)r.range(100000, thorough ? 220000 : 130000); int kind = i % 3 == 2 ? 9 : 8;
     std::vector<uint32_t> s = gen_syms(r, kind, n, kind == 9 ? 0x7fffffffu : 1000);
-    enc_case(o, r, s, 1, kind == 9 ? 0 : (i % 3 == 0 ? 1 : -1), (int)r.range(0, 10), 1);
+    enc_case(o, r, s, 1, kind == 9 ? 0 : (i % 3 == 0 ? 1 : -1), (int)r.range(0, 10), 1, true);
   }
   if (thorough) {
     // up to 2^18 distinct symbols (and beyond: the raw scheme must refuse more than 2^18 - 1)
@@ -456,7 +537,8 @@ int main(int argc, char **argv) {
   }
   o.note("cov tagged=" + S(g_cov[COV_TAGGED]) + " raw=" + S(g_cov[COV_RAW]) + " auto=" + S(g_cov[COV_AUTO]) + " enc_fail=" + S(g_cov[COV_ENC_FAIL]) +
          " dec_ok=" + S(g_cov[COV_DEC_OK]) + " dec_fail=" + S(g_cov[COV_DEC_FAIL]) + " create_false=" + S(g_cov[COV_CREATE_FALSE]) +
-         " oldver=" + S(g_cov[COV_OLDVER]) + " big=" + S(g_cov[COV_BIG]));
+         " oldver=" + S(g_cov[COV_OLDVER]) + " big=" + S(g_cov[COV_BIG]) + " area_checks=" + S(g_cov[COV_AREA]) +
+         " area_model_cases=" + S(g_cov[COV_AREA_MODEL]) + " area_max_fill_pct=" + S(g_cov[COV_AREA_MAXPCT]));
   fprintf(stderr, "h_C08: %ld cases, %ld direct failures\n", o.cases, o.fails);
   return 0;
 }
